@@ -11,6 +11,7 @@ mod formats;
 mod allocrec;
 mod dump;
 mod c06;
+mod c11;
 
 #[global_allocator]
 static GLOBAL: allocrec::Rec = allocrec::Rec;
@@ -36,6 +37,7 @@ fn main() {
         "C20" => c20::run(&mut out, tier, seed, corpus.as_deref()),
         "C02" => c02::run(&mut out, tier, seed, corpus.as_deref()),
         "C08" => c08::run(&mut out, tier, seed, corpus.as_deref()),
+        "C11" | "C10" => c11::run(&mut out, tier, seed, corpus.as_deref(), prop),
         "C06" | "C07" => c06::run(&mut out, tier, seed, corpus.as_deref(), prop),
         _ => {
             eprintln!("unknown property {prop}");
